@@ -56,13 +56,23 @@ class Collector(object):
                  and k.get('status', 'known') == 'known']
         known_fps = {}
         for k in known:
-            for fp in k['fingerprints']:
+            for fp in k.get('fingerprints', []):
                 known_fps[fp] = k
+        import re
+        patterns = []
+        for k in known:
+            for pat in k.get('fingerprint_patterns', []):
+                patterns.append((re.compile(pat), k))
         unlisted = 0
         seen_known = {}
         nondeterministic = False
         for fp in sorted(self.by_fp):
             ent = self.by_fp[fp]
+            if fp not in known_fps:
+                for rx, k in patterns:
+                    if rx.fullmatch(fp):
+                        known_fps[fp] = k
+                        break
             if fp in known_fps:
                 k = known_fps[fp]
                 seen_known.setdefault(k['id'], [k, 0])[1] += ent['count']
